@@ -92,3 +92,25 @@ def cert_configs():
     # (the paths as an operator may legally spell them: canonical, with a "." segment, with a doubled slash, relative)
     return [{'args': [], 'certs': True}, {'args': [], 'certs': True, 'via_env': True, 'cert_spelling': 'dot'},
             {'args': [], 'certs': True, 'cert_spelling': 'dslash'}, {'args': [], 'certs': True, 'cert_spelling': 'rel'}]
+
+
+def aged_configs():
+    """requests on connections older than the handshake timeout (250 ms): served like the first one"""
+    args = ['-timeout-tls-handshake=250ms']
+    return [{'args': args, 'aged': True}, {'args': args + ['-enable-kubernetes-probe=false'], 'aged': True, 'via_env': True}]
+
+
+def judge_aged(ctx, check):
+    n = 0
+    for wout in run_wiring(ctx, aged_configs()):
+        if wout.get('err'):
+            raise vf.Inconclusive('wiring driver: %s' % wout['err'])
+        a = wout.get('aged') or {}
+        if a.get('h2_first') != '200/1' or a.get('h1_first', '200/1') != '200/1':
+            raise vf.Inconclusive('wiring driver: the first request on a fresh connection is not served: %s' % a)
+        for k, v in sorted(a.items()):
+            n += 1
+            if v != '200/1':
+                ctx.violation({'check': check, 'kind': 'not_forwarded', 'via': 'real_wiring', 'request': k},
+                              'real wiring, handshake timeout 250 ms: request %s on a connection older than that came back as status/forwarded = %s (all: %s)' % (k, v, a), wout)
+    return n
